@@ -65,6 +65,16 @@ func (pass *DisjunctionToType) Process(schemas []*ast.Schema) ([]*ast.Schema, er
 }
 
 func (pass *DisjunctionToType) processDisjunction(visitor *Visitor, schema *ast.Schema, def ast.Type) (ast.Type, error) {
+	// process the disjunctions nested in the branches first
+	for i, branch := range def.Disjunction.Branches {
+		visitedBranch, err := visitor.VisitType(schema, branch)
+		if err != nil {
+			return ast.Type{}, err
+		}
+
+		def.Disjunction.Branches[i] = visitedBranch
+	}
+
 	disjunction := def.AsDisjunction()
 
 	// Ex: "some concrete value" | "some other value" | string
